@@ -43,7 +43,7 @@ theorem foldlM_setChannel_tot (l : List Nat) (m : Mask) (hm : m.length = 9) (hl 
 theorem numJoinChannels_pos (r : RegionId) : 0 < numJoinChannels r := by cases r <;> decide
 
 theorem range_tot (r : RegionId) (p : DynPlan) (h : dynWF r p = true) : Tot p.range (fun n => n ≤ 16) := by
-  obtain ⟨hc, hm, hd⟩ := dynWF_iff.mp h
+  obtain ⟨hc, hm, hd, _⟩ := dynWF_iff.mp h
   unfold DynPlan.range
   simp only
   obtain ⟨c0, hc0⟩ := hd 0 (numJoinChannels_pos r)
@@ -218,7 +218,7 @@ theorem selectTxChannel_safe {σ} (g : Rng σ) (rs : RegionState) (dr : DR) (fra
   cases hp : rs.plan with
   | dyn p =>
     have hw := (regionWF_dyn hp).mp h
-    obtain ⟨hc, hm, hd⟩ := dynWF_iff.mp hw.2
+    obtain ⟨hc, hm, hd, hib⟩ := dynWF_iff.mp hw.2
     simp only [hidx, ok_bind]
     cases frame with
     | join =>
@@ -243,7 +243,7 @@ theorem selectTxChannel_safe {σ} (g : Rng σ) (rs : RegionState) (dr : DR) (fra
             · have := List.mem_range.mp hi
               have := numJoinChannels_le rs.id
               omega
-            · exact dynWF_iff.mpr ⟨hc, hm', hd⟩
+            · exact dynWF_iff.mpr ⟨hc, hm', hd, hib⟩
         refine Safe.tbind hp' (fun p' hp'' => ?_)
         refine Safe.bind (dynDataLoop_safe g rs.id p' _ s hp'') ?_
         intro ⟨c, s1⟩ _
